@@ -523,6 +523,29 @@ def task_between_panel(ctx: Ctx, cal: str, years: list[int]) -> None:
                     return
 
 
+def task_year_span(ctx: Ctx, cal: str, years: int) -> None:
+    """plus_days by about one whole year from the days around a year boundary (a step that can cross two year
+    boundaries when the year in between is a short one: 353-day Hebrew years, 354-day lunar years), both directions."""
+    from pyoda_time import LocalDate
+
+    c = pyo.cal(cal)
+    ny = c.max_year - c.min_year + 1
+    y0 = c.min_year + sub_seed(ctx.seed, "c09span", cal) % max(1, ny - years)
+    ys = sorted(set(range(y0, min(c.max_year - 1, y0 + years))) | {c.min_year + 1, c.max_year - 1})
+    for y in ys:
+        if not c.min_year < y < c.max_year:
+            continue
+        d = LocalDate(y, 1, 1, c)
+        start = d._days_since_epoch - (d.day_of_year - 1)
+        length = c.get_days_in_year(y)
+        for n in (start - 1, start, start + 1):
+            for k in (length - 1, length, length + 1, length + 2):
+                ctx.case("days", {"cal": cal, "n": n, "k": k})
+        for n in (start + length - 1, start + length, start + length + 1):
+            for k in (length - 1, length, length + 1, length + 2):
+                ctx.case("days", {"cal": cal, "n": n, "k": -k})
+
+
 def tasks(tier: str, seed: int) -> list[Task]:
     out = [Task("task_hyp", {"shard": i, "n": 1100 if tier == "quick" else 22000}, f"hyp-{i}") for i in range(16)]
     for cid in pyo.cal_ids():
@@ -531,6 +554,7 @@ def tasks(tier: str, seed: int) -> list[Task]:
         # a leap/non-leap mix: a seed-chosen year and the year(s) after it; thorough: 12 seed-chosen years
         ys = sorted({c.min_year + sub_seed(seed, "c09p", cid, k) % ny for k in range(1 if tier == "quick" else 12)})
         out.append(Task("task_between_panel", {"cal": cid, "years": ys}, f"between-panel-{cid}"))
+        out.append(Task("task_year_span", {"cal": cid, "years": 120 if tier == "quick" else 2000}, f"year-span-{cid}"))
     if tier == "thorough":
         for cid in ("Um Al Qura", "Badi", "Hebrew Civil", "Hebrew Scriptural"):
             c = pyo.cal(cid)
